@@ -266,6 +266,7 @@ func c08(args []string) int {
 	for _, cd := range codecDefs() {
 		c08Codec(run, cd)
 	}
+	dispatchProbe(run)
 	c08Contain(run)
 	return run.Finish()
 }
